@@ -7,7 +7,7 @@ open Drv
 /-- one input line `> op …` is answered by one output line; all other lines are ignored -/
 structure AllDrv where
   srv : SrvDrv
-  txn : Turn.Txn.St
+  txn : TxnDrv
   cli : Turn.Cli.State
   ka : KDrv
 
@@ -44,5 +44,5 @@ partial def loop (hin hout : IO.FS.Stream) (d : AllDrv) : IO Unit := do
 def main : IO Unit := do
   let hin ← IO.getStdin
   let hout ← IO.getStdout
-  loop hin hout ⟨SrvDrv.init, ⟨0, []⟩, Turn.Cli.init, KDrv.init⟩
+  loop hin hout ⟨SrvDrv.init, TxnDrv.init, Turn.Cli.init, KDrv.init⟩
   hout.flush
